@@ -14,10 +14,8 @@ TryAsName(v, suffix) == TryAsPrefix \o Snakify(v.id) \o suffix
 \* digits / acronyms; an underscore next to a digit, or two identifiers with the same snake form (rustc then
 \* reports a duplicate method), are outside it
 UnderscoreTouchesDigit(s) == \E k \in 1..(Len(s) - 1) : (s[k] = 95 /\ IsDigit(s[k + 1])) \/ (IsDigit(s[k]) /\ s[k + 1] = 95)
-\* non-ASCII letters are caseless in this model; that is faithful for the snake form as long as such a letter is
-\* lowercase in Unicode and is not followed by an uppercase letter (no word boundary hinges on it); the corpus only
-\* uses lowercase non-ASCII letters, the second condition is checked here
-NonAsciiSafe(s) == \A k \in 1..Len(s) : s[k] > 127 => (k > 1 /\ (k = Len(s) \/ ~IsUpper(s[k + 1])))
+\* identifiers must stay inside the table of letters whose case mapping is modelled (Chars.InCaseTable)
+NonAsciiSafe(s) == IdentInTable(s)
 IsNamesWF(E) == /\ \A i \in Idx(E) : ~UnderscoreTouchesDigit(E.variants[i].id) /\ NonAsciiSafe(E.variants[i].id)
                 /\ \A i, j \in Idx(E) : i # j => Snakify(E.variants[i].id) # Snakify(E.variants[j].id)
 
